@@ -86,6 +86,7 @@ def pair_ops(n):
     if n:
         rsel.append(["l", [n - 1, 0]])
         rsel.append(["m", [i % 2 for i in range(n)]])
+        rsel.append(["lb", [(i + 1) % 2 for i in range(n)]])
     for rs in rsel:
         for a in _B:
             for b in _B:
